@@ -183,7 +183,7 @@ C04_OthersKept ==
 C04_OneController ==
   \A k \in DOMAIN store : Cardinality(Controllers(store[k])) <= 1
 C04_DyingParentPassive ==
-  (ReqE /\ IsOwnedKind(E) /\ C.parent.deleting /\ E.verb = "update" /\ E.pre.live /\ E.body.live)
+  (ReqE /\ IsOwnedKind(E) /\ C.parent.deleting /\ E.verb = "update" /\ E.pre.live /\ E.body.live /\ C.nHooks = 0)
   => \/ E.body.owners = E.pre.owners
      \/ Report("C04", "C04_DyingParentPassive", <<Key(E)>>)
 \* a desired child that would not match the selector: nothing is written, the sync errs
@@ -229,7 +229,8 @@ OwnedObs(c) == { k \in DOMAIN c.obs :
                    /\ k \notin c.released
                    /\ (c.parent.ns # "" => c.obs[k].ns = c.parent.ns) }
 \* the sync got as far as reconciling children: one hook answer, accepted
-Reached(c) == c.nHooks = 1 /\ c.hookOK /\ ~c.gateBad
+\* (scenarios that serve deliberately malformed responses are judged by C13 only)
+Reached(c) == c.nHooks = 1 /\ c.hookOK /\ ~c.gateBad /\ "shape" \notin DOMAIN expect
 \* desired state already reflected by the observed object (3-way merge would be a no-op):
 \* last-applied equals desired, and every desired field/label is present with that value
 LAOf(d) == [p \in { q \in DOMAIN d.fields : TRUE } |-> d.fields[p]]
@@ -505,6 +506,27 @@ C16_NoOpNoRequest ==
   (IsEv("SyncEnd") /\ IsDecorator /\ E.a \in DOMAIN ctx /\ ctx[E.a].active /\ ctx[E.a].statusPuts > 0 /\ ~ctx[E.a].parentChanged
      /\ ctx[E.a].failedReqs = <<>> /\ ctx[E.a].fresh)
   => Report("C16", "C16_NoOpNoRequest", <<"target written", ctx[E.a].statusPuts, "times without any change">>)
+\* what the answer names is applied: after a sync without interference the named keys have the
+\* answer's value (null: the key is gone) and a non-null status is the target's status
+NamedApplied(m, named) == \A k \in DOMAIN named : IF named[k] = "null" THEN k \notin DOMAIN m ELSE (k \in DOMAIN m /\ named[k] = "s:" \o m[k])
+C16_Applied ==
+  (IsEv("SyncEnd") /\ IsDecorator /\ E.a \in DOMAIN ctx /\ ctx[E.a].active /\ ctx[E.a].nHooks = 1 /\ ctx[E.a].hookOK /\ "shape" \notin DOMAIN expect
+     /\ ctx[E.a].failedReqs = <<>> /\ ctx[E.a].fresh /\ E.result = "ok")
+  => LET c == ctx[E.a]  t == Lookup(store, ParentKeyOf(c)) IN
+     \/ ~t.live \/ t.uid # c.parent.uid
+     \/ (NamedApplied(t.labels, c.resp.labels) /\ NamedApplied(t.ann, c.resp.annotations) /\ (c.resp.hasStatus => t.status = c.resp.status))
+     \/ Report("C16", "C16_Applied", <<"labels", t.labels, c.resp.labels, "ann", t.ann, c.resp.annotations, "status", t.status, c.resp.status>>)
+\* attachments are recognised solely by a controller owner reference to the target TOGETHER WITH the
+\* decorator's marker: others are neither reported to the hook nor written
+C16_AttachmentsOwnedMarked ==
+  /\ (HookE /\ IsDecorator)
+       => \A g \in DOMAIN E.req.children : \A n \in DOMAIN E.req.children[g] :
+             LET o == E.req.children[g][n] IN
+             \/ (o.ctrl = PUid /\ HasMarker(o, C))
+             \/ Report("C16", "C16_AttachmentsOwnedMarked", <<"reported to the hook", ObjKey(o), "ctrl", o.ctrl, "ann", o.ann>>)
+  /\ (ReqE /\ IsDecorator /\ IsChildReq(E) /\ E.verb \in (WriteVerbs \ {"create"}) /\ E.pre.live /\ Accepted(E) /\ E.post # E.pre)
+       => \/ (E.pre.ctrl = PUid /\ HasMarker(E.pre, C))
+          \/ Report("C16", "C16_AttachmentsOwnedMarked", <<"written", E.verb, Key(E), "ctrl", E.pre.ctrl, "ann", E.pre.ann>>)
 \* a sync acts only on objects that satisfy both selectors or still carry the finalizer
 C16_Selected ==
   ((HookE \/ (ReqE /\ E.verb # "get")) /\ IsDecorator)
